@@ -99,6 +99,7 @@ class FsSeam:
         # buggify: the kernel may copy fewer bytes than asked for; cap the bytes of every copy_file_range call
         self.cfr_cap: int | None = None
         self.cfr_capped_calls = 0
+        self.raw_short_writes = 0
         self.read_faults: list[dict] = []
         self.read_kind_counts: dict[str, int] = {}
 
@@ -192,7 +193,12 @@ class SimFile:
         f = self._seam.effect("write", self._path, len(data))
         if f is not None:
             if f["mode"] == "short" and len(data) > 1:
-                self._real.write(bytes(data)[: len(data) // 2])
+                n = self._real.write(bytes(data)[: len(data) // 2])
+                if isinstance(self._real, io.RawIOBase):
+                    # an unbuffered file reports what write(2) reports: a short count and no error (file-size limit,
+                    # nearly full disk); only a buffered file retries and eventually raises
+                    self._seam.raw_short_writes += 1
+                    return n
             raise FsSeam.oserror(f["errno"], self._path)
         return self._real.write(data)
 
